@@ -1,7 +1,7 @@
 #!/usr/bin/env python3
 """usage: tools/tie_coverage.py [--update]
 For every recorded seeded change (seeded/<id>/patch.diff): apply it to a scratch checkout of /repo, run the logic translator
-on that checkout into a scratch copy of coq/, and re-check every Proofs/Tie*.v there.  Reports, per change, which
+on that checkout into a scratch copy of coq/, and re-check every Proofs/*.v there (regenerated constants feed the model proofs too).  Reports, per change, which
 functions the translator refused and which tie proofs no longer check - i.e. whether the change is flagged at proof level,
 independently of any generator.  /repo, /verif/coq and .build are not touched.  --update writes seeded/TIE_COVERAGE.md."""
 import glob, json, os, re, shutil, subprocess, sys, tempfile
@@ -13,14 +13,23 @@ subprocess.run(["git", "-C", "/repo", "worktree", "add", "--detach", repo, "HEAD
 coq = os.path.join(S, "coq")
 shutil.copytree(os.path.join(ROOT, "coq"), coq)
 env = dict(os.environ, VERIF_REPO=repo, VERIF_LOGIC_OUT=os.path.join(coq, "Gen", "LogicGen.v"), VERIF_LOGIC_STATUS=os.path.join(S, "status.json"))
-ties = sorted(os.path.basename(f)[:-2] for f in glob.glob(os.path.join(coq, "Proofs", "Tie*.v"))) + ["ChecksumTie", "ChecksumProofs", "TargetsProofs"]
+ties = sorted(os.path.basename(f)[:-2] for f in glob.glob(os.path.join(coq, "Proofs", "*.v")))
 def run_ties():
+    subprocess.run(["python3", os.path.join(HERE, "gen_constants.py")], env=dict(env, VERIF_CONST_OUT=os.path.join(coq, "Gen", "Constants.v"), VERIF_CONST_STATUS=os.path.join(S, "cstatus.json")), capture_output=True)
+    try:
+        cst = json.load(open(os.path.join(S, "cstatus.json")))
+    except Exception:
+        cst = {}
     p0 = subprocess.run(["python3", os.path.join(HERE, "gen_checksum.py")], env=dict(env, VERIF_GEN_OUT=os.path.join(coq, "Gen", "ChecksumGen.v")), capture_output=True, text=True)
     subprocess.run(["python3", os.path.join(HERE, "gen_logic.py")], env=env, capture_output=True)
     st = json.load(open(env["VERIF_LOGIC_STATUS"]))
     refused = [f["function"] for f in st.get("failed", [])]
     if "cannot translate" in (p0.stdout + p0.stderr):
         refused.append("rolling checksum (gen_checksum.py)")
+    for g in cst.get("failed", []):
+        refused.append("constants group %s" % g.get("group"))
+    if cst.get("constants_fatal"):
+        refused.append("constants (fatal)")
     p = subprocess.run(["timeout", "1500", "make", "-k", "-j8"] + ["Proofs/%s.vo" % t for t in ties], cwd=coq, capture_output=True, text=True)
     broken = sorted(set(re.findall(r"\[Makefile:\d+: (?:Proofs|Gen)/(\w+)\.vo\] Error", p.stdout + p.stderr)))
     return refused, broken
@@ -42,7 +51,7 @@ try:
     applicable = sum(1 for _, r, b in rows if r is not None)
     lines = ["# Seeded changes flagged by the translator ties alone", "",
              "Produced by `tools/tie_coverage.py` (no generator, no harness: only `tools/gen_logic.py` on the changed checkout and the",
-             "`Proofs/Tie*.v` files).  *refused* = the translator no longer accepts the function (fails closed); *broken* = the",
+             "`Proofs/*.v` files) - plus `gen_constants.py` and `gen_checksum.py`.  *refused* = the translator no longer accepts the function (fails closed); *broken* = the",
              "function still translates but the generated file or a tie proof no longer checks.  Baseline (unchanged tree): refused %s, broken %s." % (base_ref or "none", base_bro or "none"), "",
              "**%d of %d applicable changes are flagged** (%d recorded; the others no longer apply to HEAD)." % (flagged, applicable, len(rows)), "",
              "| change | refused by the translator | tie proofs that no longer check |", "|---|---|---|"]
